@@ -60,7 +60,7 @@ type guardTx struct {
 func (g guardTx) AddBatch(b *txindex.Batch) error {
 	for i, r := range b.Ops {
 		if r == nil {
-			g.s.env.Report("C19", "indexer-batch-hole"+g.s.suffix(), "IndexerService built a batch whose entry %d of %d is nil (a tx event of the block never reached it)", i, len(b.Ops))
+			g.s.env.Report("C19", g.s.idxSig("indexer-batch-hole"), "IndexerService built a batch whose entry %d of %d is nil (a tx event of the block never reached it)", i, len(b.Ops))
 			g.s.broken = true
 			return fmt.Errorf("simulator: batch with a nil entry")
 		}
@@ -89,10 +89,11 @@ type isim struct {
 	nsub     int
 
 	postPoison int // blocks published after the ill-typed bundle
+	slashKeys  map[string]bool // composite keys under which an indexed tx attribute value contains "/"
 }
 
 func newIndexSim(env *simcore.Env, cfg simcore.Op) simcore.Sim {
-	s := &isim{env: env, cfg: cfg, opsLeft: cfg.Int("nops")}
+	s := &isim{env: env, cfg: cfg, opsLeft: cfg.Int("nops"), slashKeys: map[string]bool{}}
 	s.bus = types.NewEventBus() // as node.go: unbuffered command queue
 	s.bus.SetLogger(log.NewNopLogger())
 	if err := s.bus.Start(); err != nil {
@@ -121,11 +122,14 @@ func newIndexSim(env *simcore.Env, cfg simcore.Op) simcore.Sim {
 	return s
 }
 
-func (s *isim) suffix() string {
+// idxSig: while a bundle of ill-typed foreign queries is subscribed, which of the consequences
+// (block / tx not indexed, hole in the batch, bus stuck) shows first depends on map order inside the
+// pubsub server, so they share one signature; without such subscribers each has its own.
+func (s *isim) idxSig(sig string) string {
 	if s.poisoned {
-		return "-foreign-type-mismatch"
+		return "indexing-incomplete-foreign-type-mismatch"
 	}
-	return ""
+	return sig
 }
 
 // ---------------------------------------------------------------- generators
@@ -278,6 +282,21 @@ func (s *isim) genSearch(rng *simcore.RNG, kind string) []cond {
 			cs = append(cs, c)
 		}
 	}
+	// a float range operand makes Search panic or not depending on the order in which it visits its
+	// (unordered) table of ranges: keep such a query to one range key so that the outcome is a
+	// function of the query
+	for _, c := range cs {
+		if c.T == "f" && isRangeOp(c.Op) {
+			var keep []cond
+			for _, o := range cs {
+				if !isRangeOp(o.Op) || o.Key == c.Key {
+					keep = append(keep, o)
+				}
+			}
+			cs = keep
+			break
+		}
+	}
 	if !f("f_height_and") && kind == "block" && len(cs) > 1 {
 		var keep []cond
 		for _, c := range cs {
@@ -354,8 +373,13 @@ func (s *isim) featureOf(kind string, cs []cond) string {
 			return "-dup-bounds"
 		}
 	}
-	if s.cfg.Bool("f_slash") {
-		return "-slash-values"
+	if kind == "tx" {
+		// only queries that touch a key under which some tx carries a value with the key separator
+		for _, c := range cs {
+			if s.slashKeys[c.Key] || strings.Contains(c.V, "/") {
+				return "-slash-values"
+			}
+		}
 	}
 	return ""
 }
@@ -363,16 +387,17 @@ func (s *isim) featureOf(kind string, cs []cond) string {
 // ---------------------------------------------------------------- op generation
 
 func (s *isim) Next(rng *simcore.RNG) simcore.Op {
-	if s.opsLeft <= 0 || s.broken || s.wedged {
+	relaxed := s.poisoned && s.env.IsKnown("C19", "lost-foreign-type-mismatch")
+	if s.opsLeft <= 0 || ((s.broken || s.wedged) && !relaxed) {
 		return nil
 	}
 	s.opsLeft--
 	w := []int{30, 35, 4, 0, 0}
 	if s.poisoned && s.env.IsKnown("C19", "lost-foreign-type-mismatch") {
 		// what happens after an ill-typed bundle depends on map order once that defect is listed as
-		// known (the run carries on): exactly one more block, no searches, so that the trace stays
+		// known (the run carries on): exactly three more blocks, no searches, so that the trace stays
 		// a function of the seed
-		if s.postPoison >= 1 {
+		if s.postPoison >= 3 {
 			return nil
 		}
 		w = []int{1, 0, 0, 0, 0}
@@ -390,6 +415,9 @@ func (s *isim) Next(rng *simcore.RNG) simcore.Op {
 	case 0:
 		op := simcore.Op{"a": "block", "begin": s.genIdxEvents(rng, 2), "end": s.genIdxEvents(rng, 2), "valupd": rng.Bool(0.1)}
 		n := rng.Intn(s.cfg.Int("maxtx") + 1)
+		if s.poisoned && n == 0 {
+			n = 1
+		}
 		var txs []simcore.Op
 		for i := 0; i < n; i++ {
 			t := simcore.Op{"ev": s.genIdxEvents(rng, 3), "code": 0}
@@ -427,6 +455,12 @@ func (s *isim) Next(rng *simcore.RNG) simcore.Op {
 
 func (s *isim) Apply(op simcore.Op) bool {
 	if s.broken || s.wedged {
+		// relaxed mode: the remaining forced blocks are no-ops, so that the trace does not depend on
+		// which consequence of the known defect showed up
+		if s.poisoned && s.env.IsKnown("C19", "lost-foreign-type-mismatch") && op.Kind() == "block" {
+			s.postPoison++
+			return true
+		}
 		return false
 	}
 	e := s.env
@@ -509,6 +543,13 @@ func (s *isim) applyBlock(op simcore.Op) {
 		sum := sha256.Sum256(r.tx)
 		r.hash = sum[:]
 		searchable(r.attrs, r.events)
+		for k, vs := range r.attrs {
+			for _, v := range vs {
+				if strings.Contains(v, "/") {
+					s.slashKeys[k] = true
+				}
+			}
+		}
 		r.attrs["tx.height"] = []string{strconv.FormatInt(h, 10)}
 		r.attrs["tx.hash"] = []string{fmt.Sprintf("%X", r.hash)}
 		txs = append(txs, r)
@@ -572,11 +613,11 @@ func (s *isim) applyBlock(op simcore.Op) {
 	}
 	if wedged {
 		s.wedged = true
-		e.Fail("C19", "publish-blocked"+s.suffix(), "publishing the events of block %d (%d txs) never completes: the event bus is stuck (the indexer service stopped reading its unbuffered subscriptions)", h, len(txs))
+		e.Fail("C19", s.idxSig("publish-blocked"), "publishing the events of block %d (%d txs) never completes: the event bus is stuck (the indexer service stopped reading its unbuffered subscriptions)", h, len(txs))
 		return
 	}
 	if e.Failed() { // reported by the guard from the indexer goroutine: unwind (the first report wins)
-		e.Fail("C19", "indexer-batch-hole"+s.suffix(), "see the report of the indexer goroutine")
+		e.Fail("C19", s.idxSig("indexer-batch-hole"), "see the report of the indexer goroutine")
 	}
 	if s.broken {
 		return
@@ -588,13 +629,13 @@ func (s *isim) checkIndexed(b *blockRec, txs []*txRec) {
 	e := s.env
 	ok, err := s.bli.Has(b.height)
 	if err != nil || !ok {
-		e.Fail("C19", "block-not-indexed"+s.suffix(), "block %d was published (NewBlockHeader) but BlockerIndexer.Has says %v, %v", b.height, ok, err)
+		e.Fail("C19", s.idxSig("block-not-indexed"), "block %d was published (NewBlockHeader) but BlockerIndexer.Has says %v, %v", b.height, ok, err)
 		s.broken = true
 	}
 	for _, r := range txs {
 		got, err := s.txi.Get(r.hash)
 		if err != nil || got == nil {
-			e.Fail("C19", "tx-not-indexed"+s.suffix(), "tx %d of block %d was published but TxIndex.Get(hash) returns %v, %v", r.index, r.height, got, err)
+			e.Fail("C19", s.idxSig("tx-not-indexed"), "tx %d of block %d was published but TxIndex.Get(hash) returns %v, %v", r.index, r.height, got, err)
 			s.broken = true
 			continue
 		}
@@ -616,7 +657,7 @@ func (s *isim) applyGet(op simcore.Op) {
 		r := s.txs[i]
 		got, err := s.txi.Get(r.hash)
 		if err != nil || got == nil {
-			e.Fail("C19", "tx-not-indexed"+s.suffix(), "TxIndex.Get of tx %d of block %d returns %v, %v", r.index, r.height, got, err)
+			e.Fail("C19", s.idxSig("tx-not-indexed"), "TxIndex.Get of tx %d of block %d returns %v, %v", r.index, r.height, got, err)
 		} else {
 			s.sameTx("Get", got, r)
 		}
